@@ -46,14 +46,18 @@ B04_quota(T) ==
        [] T.fam = "meek" -> \/ (a.tag = "begin" /\ ~QuotaOK(T, a.quota, T.nSb))
                             \/ ((a.tag \in {"iterate", "tie"} \/ a.mc \in {"elect", "defeat_omega", "defeat_stable"}) /\ ~QuotaOK(T, a.quota, a.votes))
        [] OTHER -> FALSE}
+(* F24 at the shipping precisions (no iteration snapshots here): an elected candidate's keep factor and tally are 0 under guarded *)
+(* arithmetic with guard digits once the quota has collapsed below one vote (every ballot exhausted)                            *)
+F24Big(T, a, c) == T.exactq /\ a.st[c] = "E" /\ BIsZero(a.kf[c]) /\ BIsZero(a.vote[c]) /\ BLt(a.quota, T.Sb)
+KfBadBig(T, a, c) ==
+  ~T.wd[c] /\ LET st == IF a.tag = "defeat" /\ c = a.subj THEN "H" ELSE a.st[c] IN
+              \/ (st = "H" /\ ~BEq(a.kf[c], T.Sb))
+              \/ (st = "D" /\ ~BIsZero(a.kf[c]))
+              \/ (st = "E" /\ ~(BLt(BZero, a.kf[c]) /\ BLe(a.kf[c], T.Sb)))
 B08_kf(T) == IF T.fam # "meek" THEN {} ELSE
-  {k \in 1 .. NA(T) : LET a == T.acts[k] IN
-     /\ MeekPost(T, a)
-     /\ \E c \in Cand(T) : ~T.wd[c] /\
-          LET st == IF a.tag = "defeat" /\ c = a.subj THEN "H" ELSE a.st[c] IN
-          \/ (st = "H" /\ ~BEq(a.kf[c], T.Sb))
-          \/ (st = "D" /\ ~BIsZero(a.kf[c]))
-          \/ (st = "E" /\ ~(BLt(BZero, a.kf[c]) /\ BLe(a.kf[c], T.Sb)))}
+  {k \in 1 .. NA(T) : LET a == T.acts[k] IN MeekPost(T, a) /\ \E c \in Cand(T) : KfBadBig(T, a, c) /\ ~F24Big(T, a, c)}
+B08_kf_f24(T) == IF T.fam # "meek" THEN {} ELSE
+  {k \in 1 .. NA(T) : LET a == T.acts[k] IN MeekPost(T, a) /\ \E c \in Cand(T) : KfBadBig(T, a, c) /\ F24Big(T, a, c)} \ B08_kf(T)
 B08_omega(T) == IF T.fam # "meek" THEN {} ELSE
   {k \in 1 .. NA(T) : LET a == T.acts[k] IN
      \/ (a.mc = "iterate_omega" /\ BLTt(T, T.omegab, a.surplus))
@@ -72,6 +76,6 @@ BigFailOf(p, T) ==
   CASE p = "C02" -> Tag("C02", "big_nonneg", B02_nonneg(T)) \cup Tag("C02", "big_upper", B02_upper(T)) \cup
                     Tag("C02", "big_lower", B02_lower(T)) \cup Tag("C02", "big_meek", B02_meek(T)) \cup Tag("C02", "big_qpq", B02_qpq(T))
     [] p = "C04" -> Tag("C04", "big_quota", B04_quota(T))
-    [] p = "C08" -> Tag("C08", "big_kf", B08_kf(T)) \cup Tag("C08", "big_omega", B08_omega(T)) \cup Tag("C08", "big_sum", B02_meek(T))
+    [] p = "C08" -> Tag("C08", "big_kf", B08_kf(T)) \cup Tag("C08", "KNOWN_F24", B08_kf_f24(T)) \cup Tag("C08", "big_omega", B08_omega(T)) \cup Tag("C08", "big_sum", B02_meek(T))
     [] OTHER -> {}
 =============================================================================
